@@ -53,3 +53,15 @@ fn probe_close_clears_handle_when_finalize_fails() {
     assert!(matches!(mla_archive_close(&raw mut ar2), MLAStatus::Success));
     assert!(ar2.is_null());
 }
+
+extern "C" fn p_wcb_half(_b: *const u8, l: u32, _c: *mut c_void, w: *mut u32) -> i32 { unsafe { *w = l.div_ceil(2); } 0 }
+/// C20/C13/C12: the write adapter over a C callback reports exactly what the callback accepted (a callback may take any part)
+#[test]
+fn probe_partial_write_callback_count_is_passed_on() {
+    let mut o = CallbackOutput { write_callback: p_wcb_half, flush_callback: p_fcb, context: null_mut() };
+    for n in [1usize, 2, 3, 1000, 4097] {
+        let buf = vec![7u8; n];
+        let got = std::io::Write::write(&mut o, &buf).unwrap();
+        assert_eq!(got, n.div_ceil(2), "callback accepted {} of {n} bytes but the adapter reported {got}", n.div_ceil(2));
+    }
+}
